@@ -169,6 +169,8 @@ namespace sqf
             sqf::runtime::value pop_back() { auto back = m_value.back(); m_value.pop_back(); return back; }
 
             void reverse() { std::reverse(m_value.begin(), m_value.end()); }
+            /// Largest number of elements an operator may grow an array to (the limit Arma uses too).
+            static constexpr size_t max_size = 9999999;
             void resize(size_t newsize)
             {
                 auto cursize = m_value.size();
